@@ -1,6 +1,7 @@
 From Coq Require Import ZArith NArith List Bool.
 From RecordUpdate Require Import RecordSet.
 From PSO Require Import Raft.Types Raft.Node Raft.Net Raft.Obs Raft.ProofsSnapshotBase Raft.ProofsSnapshot Raft.ProofsSnapshotChunks Raft.ProofsSnapshotExamples.
+From PSO Require Raft.ProofsCommitBase Raft.ProofsCommit Raft.ProofsCommitLog.
 Import ListNotations.
 Import RecordSetNotations.
 Open Scope N_scope.
@@ -54,14 +55,16 @@ Theorem C09_load_restores : forall e s sn,
   stored (sr (nd s)) = Some (Good sn) -> s_ver sn <= self_ver (nd s) ->
   applied (nd s) < eidx (s_e1 sn) ->
   let s' := load_dump e true s in
+  let kept := ProofsCommit.snap_kept sn (log (nd s)) in
   load_dump_ok s = true /\
   hist (nd s') = s_hist sn /\ enabled_ver (nd s') = s_ver sn /\ applied (nd s') = eidx (s_e1 sn) /\
-  log (nd s') = [s_e0 sn; s_e1 sn] /\
-  replay_idx (nd s') = N.min (replay_idx (nd s)) (eidx (s_e1 sn)) /\
+  log (nd s') = (if kept then delete_to (log (nd s)) (eidx (s_e0 sn)) else [s_e0 sn; s_e1 sn]) /\
+  replay_idx (nd s') = (if kept then replay_idx (nd s) else N.min (replay_idx (nd s)) (eidx (s_e1 sn))) /\
   commit (nd s') = commit (nd s) /\ sr (nd s') = sr (nd s) /\ exc s' = exc s /\
   self_ver (nd s') = self_ver (nd s) /\
-  others (nd s') = (if dyn (cf e)
-                    then filter (fun x => negb (self_is x (nd s))) (s_cluster sn) else others (nd s)).
+  (dyn (cf e) = false -> others (nd s') = others (nd s)) /\
+  (dyn (cf e) = true -> kept = false ->
+   others (nd s') = filter (fun x => negb (self_is x (nd s))) (s_cluster sn)).
 Proof. exact load_restores. Qed.
 Print Assumptions C09_load_restores.
 
@@ -101,7 +104,8 @@ Theorem C09_install_reply : forall e from t c p s sn,
   stored (sr (nd s')) = Some (Good sn) -> s_ver sn <= self_ver (nd s) ->
   applied (nd s) < eidx (s_e1 sn) ->
   hist (nd s') = s_hist sn /\ enabled_ver (nd s') = s_ver sn /\ applied (nd s') = eidx (s_e1 sn) /\
-  log (nd s') = [s_e0 sn; s_e1 sn] /\
+  log (nd s') = (if ProofsCommit.snap_kept sn (log (nd s))
+                 then delete_to (log (nd s)) (eidx (s_e0 sn)) else [s_e0 sn; s_e1 sn]) /\
   commit (nd s') = (if commit (nd s) <? c then N.max (commit (nd s)) (N.min c (eidx (s_e1 sn))) else commit (nd s)) /\
   (smem from (tconn (nd s)) = true -> dyn (cf e) = false ->
    In (Send from (NextIdx t (eidx (s_e1 sn) + 1) false true)) (outs s')).
@@ -249,3 +253,18 @@ Print Assumptions C09_inflight_loss_splices.
 Theorem C09_stored_snapshot_never_corrupt_refuted : ~ C09_stored_snapshot_never_corrupt_full.
 Proof. exact stored_snapshot_never_corrupt_refuted. Qed.
 Print Assumptions C09_stored_snapshot_never_corrupt_refuted.
+
+(* the install keeps what the follower holds behind the snapshot (positive statement of the repair of
+   `install_drops_acked`): with consecutive indices and the snapshot's two entries in the log, the
+   new log is exactly the old one from the snapshot's first entry on *)
+Theorem C09_install_keeps_suffix :
+  forall (e : env) (from : nid) (t c : N) (p : snap_part) (n : node) (sn : snapshot),
+  term n <= t -> ProofsCommit.recv_snapshot p (sr n) = Some (Good sn) ->
+  s_ver sn <= self_ver n -> applied n < eidx (s_e1 sn) ->
+  ProofsCommitLog.consec (log n) -> ProofsCommit.snap_kept sn (log n) = true ->
+  let n' := nd (on_message e from (AESnap t c p) n) in
+  log n' = filter (fun en => eidx (s_e0 sn) <=? eidx en) (log n) /\
+  (forall en, In en (log n) -> eidx (s_e1 sn) < eidx en -> In en (log n')) /\
+  applied n' = eidx (s_e1 sn).
+Proof. exact ProofsCommitLog.install_keeps_suffix. Qed.
+Print Assumptions C09_install_keeps_suffix.
